@@ -53,11 +53,58 @@ CHECK_DEADLOCK FALSE
         raise vlib.ToolError("replayed %d of %d paths" % (agg["paths"], stats["paths"]))
 
 
+def scale_part(rep, tier):
+    """M3: OQOps evaluated by TLC on single large states (capacities / fill levels around 2^8 and 2^16) vs the real queue"""
+    caps = [1, 2, 10, 255, 256, 257, 65535, 65536, 65537] + ([131071, 131072, 200000] if tier == "thorough" else [70000])
+    vecs = sorted({(c, f) for c in caps for f in (c - 1, c) if f >= 0})
+    mc = vlib.write_mc("MC_OQScale_" + tier, "OQScale", "MCVectors == {%s}" % ", ".join("<<%d, %d>>" % v for v in vecs))
+    cfg = write_cfg("OQScale_%s.cfg" % tier, "SPECIFICATION Spec\nCONSTANTS Vectors <- MCVectors\nCHECK_DEADLOCK FALSE\n")
+    res = vlib.run_tlc(mc, cfg, "c16_scale_" + tier, workers=1, timeout=600)
+    vlib.tlc_must_pass(res, "OQScale")
+    rep.add_tlc(res)
+    exp = {(r["cap"], r["fill"]): r for r in res["lines"]}
+    if len(exp) != len(vecs):
+        raise vlib.ToolError("OQScale: TLC evaluated %d of %d vectors" % (len(exp), len(vecs)))
+    exes = vlib.build("sched", ["drv_oq_conc"])
+    vf = os.path.join(vlib.WORK, "traces", "oq_scale_%s.txt" % tier)
+    os.makedirs(os.path.dirname(vf), exist_ok=True)
+    with open(vf, "w") as f:
+        for v in vecs:
+            f.write("%d %d\n" % v)
+    results, other, rc, err = vlib.run_driver(exes["drv_oq_conc"], ["scale", vf], timeout=900)
+    got = [vlib.json.loads(ln[6:]) for ln in other if ln.startswith("SCALE ")]
+    if rc != 0 or not results or len(got) != len(vecs):
+        rep.violation("scale:crash", "scale driver failed rc=%s (%d of %d vectors) %s" % (rc, len(got), len(vecs), err[-300:]), dict(rc=rc))
+        return
+    for g in got:
+        e = exp[(g["cap"], g["fill"])]
+        bad = []
+        if g["held"] != e["held"]:
+            bad.append("producer %sheld back" % ("" if g["held"] else "NOT "))
+        if g["lenAfterWrite"] != e["lenAfterWrite"]:
+            bad.append("queue length after the write %d, expected %d" % (g["lenAfterWrite"], e["lenAfterWrite"]))
+        if g["held"] and e["held"]:
+            if (g["ret"], g["gAfterRead"]) != (e["ret"], e["gAfterRead"]):
+                bad.append("read returned %s (g=%s), expected %s (g=%s)" % (g["ret"], g["gAfterRead"], e["ret"], e["gAfterRead"]))
+            if not g["releasedByRead"]:
+                bad.append("the held producer is not released by the read")
+        if bad:
+            rep.violation("scale:cap%d:fill%d" % (g["cap"], g["fill"]), "capacity %d holding %d objects: %s (OQScale.tla: %s)"
+                          % (g["cap"], g["fill"], "; ".join(bad), vlib.json.dumps(e)), dict(expected=e, got=g))
+    rep.cov["evaluations"] += len(got)
+    rep.cov["traces_validated_against_impl"] += len(got)
+    rep.cov["scale_vectors"] = len(got)
+    rep.cov["samples"].append(dict(kind="M3 vector (OQScale)", expected=exp[vecs[-1]], got=got[-1]))
+
+
 def run(rep, tier, seed):
     rep.cov["rule"] = ("every edge of the TLC state graph of ObjectQueueSeq/QueueConc is executed on the real "
-                       "ObjectQueue; a case is one distinct (state, operation) edge")
+                       "ObjectQueue; a case is one distinct (state, operation) edge; the same operators evaluated by TLC on single "
+                       "large states (capacities and fill levels around 2^8 and 2^16, OQScale.tla) are compared with the real "
+                       "queue in that state (is the producer held, what does read return, is the producer released)")
     seq_part(rep, tier)
     conc_part(rep, tier)
+    scale_part(rep, tier)
     rep.cov["distinct_nontrivial"] = sum(m["edges"] for m in rep.cov.get("m1", []))
     rep.assumptions += ["projection reads private members (-fno-access-control)",
                         "Inf models numeric_limits<uint32_t>::max()"]
